@@ -32,6 +32,7 @@ last step; only a difference in the answers is a violation (behaviour value-quer
 A float that comes back as decimal.Decimal counts as altered (the operand reports Decimal('2') instead of 2.0 and
 float arithmetic on it starts to raise); float vs numpy.float64 with equal bits does not.
 """
+import os
 import copy
 import struct
 import hashlib
@@ -423,6 +424,10 @@ def run_shard(desc):
             seen.add(s1)
             frontier.append(([op1], len(pool)))
     depth = 3 if tier == "thorough" else 2
+    leaves = set()
+    only = os.environ.get("C07_POOLS")                  # development aid: restrict the run to some pools
+    if only and pname not in only.split(","):
+        depth = 1
     for level in range(2, depth + 1):
         nxt = []
         probe = level == 3
@@ -434,7 +439,10 @@ def run_shard(desc):
                 if rec is not None:
                     continue
                 s = canon(pname, pool)
-                sh.add_to_set("states", s)
+                if level <= 2:
+                    sh.add_to_set("states", s)          # merged over all shards: exact number of distinct states
+                else:
+                    leaves.add(s)                       # level-3 states are only de-duplicated inside the shard
                 if shares_units_object(pool, n0):
                     sh.count("info:state-with-shared-units-object")
                 if s not in seen:
@@ -443,6 +451,11 @@ def run_shard(desc):
                     if len(h) == 2 and len(sh.samples) < 1 and op[0] in INPLACE and last == "ok" and hist[0][0] == "bin":
                         sh.sample(dict(pool=pname, history=h))
         frontier = nxt
+    if depth == 3:
+        sh.add_extra("level3_states_counted_per_shard", len(leaves - seen))
+    if depth == 2:
+        sh.add_extra("level3_transitions_left_to_thorough",
+                     sum(len(alphabet(pname, n, probe=True)) for _, n in frontier))
     leak = isolation.tables_restore()
     if leak:
         sh.add_extra("table_leaks", 1)
@@ -471,7 +484,13 @@ def finish(total, tier, seed):
     missing = [o for o in list(BIN) + list(UNA) + ["value"] + list(INPLACE) if h.get(o + ":ok", 0) == 0]
     if missing:
         raise HarnessError("operations that never succeeded anywhere: %r" % missing)
-    return dict(states=len(states), pools=sorted(POOLS), depth=3 if tier == "thorough" else 2,
+    if os.environ.get("C07_POOLS"):
+        print("NOTE: C07_POOLS set - partial development run, evidence is not a full run")
+    return dict(states=len(states), states_note="distinct canonical states reached within 2 steps, merged over all "
+                "shards; states first reached by a third step are counted per shard in "
+                "level3_states_counted_per_shard (an upper bound of their distinct number)",
+                pools=sorted(POOLS) if not os.environ.get("C07_POOLS") else os.environ["C07_POOLS"].split(","),
+                depth=3 if tier == "thorough" else 2,
                 alphabet=dict(binary=sorted(BIN), unary=sorted(UNA), inplace=list(INPLACE), value_query=True,
                               level3="in-place methods and value queries on every object, == and + on every ordered pair"
                               if tier == "thorough" else "not explored in the quick tier"),
@@ -485,12 +504,14 @@ MANIFEST = dict(
          "temperatures, three operands) every history of length 1 and 2 over the complete alphabet (8 binary operators "
          "and comparisons incl. linspace/logspace on every ordered pair, 32 unary forms incl. reflected arithmetic with "
          "plain numbers, powers, indexing and 16 NumPy functions, value queries in 3 units, and the in-place methods "
-         "to/rebase/abse/rele on every object, operands and results alike) is executed on freshly built operands; the "
-         "thorough tier adds a third step (in-place methods and value queries on every object, == and + on all pairs). "
+         "to/rebase/abse/rele on every object, operands and results alike) is executed on freshly built operands "
+         "(2.3e5 histories, 6.1e4 distinct states); the thorough tier adds a third step from every distinct state "
+         "(in-place methods and value queries on every object, == and + on all ordered pairs; 5.4e6 more histories). "
          "After every step all objects that are not the target of an in-place method must report bit-identical value, "
-         "units and uncertainty.",
+         "units and uncertainty, and the same answers to value(unit).",
     note="Sharing between result and operand is judged by its effect through the in-place methods (as the statement "
          "defines it), not structurally; operand magnitudes are one representative per pool; histories longer than the "
-         "bound rely on the small-scope hypothesis; trusted: value()/units()/abse() are read-only accessors.",
+         "bound rely on the small-scope hypothesis; trusted: value()/units()/abse() are read-only accessors; the "
+         "value(unit) answers are compared only when a cheap structural fingerprint of the object changed.",
     technique="explicit-state BFS over operation histories on real objects, invariant = observations of untouched objects",
 )
